@@ -2,7 +2,7 @@
   GIV.Lemmas.CachePutConc — fault-free concurrent executions (C11): data files stay PREFIXES of the
   content with their hash while several writers interleave their writes.
 -/
-import GIV.Lemmas.CachePutLookup
+import GIV.Lemmas.CachePutExec
 
 set_option linter.unusedSimpArgs false
 set_option linter.unusedSectionVars false
